@@ -273,6 +273,9 @@ fn shape(t: &Trace) -> String {
     if t.read_step_ns > 0 {
         s.push_str(" tick");
     }
+    if t.ctor_default {
+        s.push_str(" default()");
+    }
     for e in t.events.iter() {
         s.push(' ');
         match e {
@@ -680,7 +683,7 @@ fn evidence_json(
     cov.put("profile", J::s(profile));
     cov.put("simulated_time_ns_finite_part", J::Str(p.sim_time_ns.to_string()));
     cov.put("infinite_clock_jumps", J::u(p.infinite_jumps));
-    cov.put("events", J::obj().set("deliveries", J::u(p.deliveries)).set("polls", J::u(p.polls)).set("resets", J::u(p.resets)).set("clock_advances", J::u(p.advances)).set("forks", J::u(p.forks)).set("snapshots", J::u(p.snapshots)).set("restores", J::u(p.restores)).set("bare_resets_inside_reset_storms", J::u(p.reset_storm_resets)).set("soak_loops", J::u(p.soak_loops)).set("steps_inside_soak_loops", J::u(p.soak_steps)).set("enc_cc14", J::u(p.enc_cc14)).set("enc_pn", J::u(p.enc_pn)).set("ingest_rejected", J::u(p.ingest_rejected)).set("ingest_mismatch", J::u(p.ingest_mismatch)).set("factory_rebuild_mismatch", J::u(p.factory_rebuild_mismatch)).set("accessor_mismatch", J::u(p.accessor_mismatch)).set("telemetry_mismatch", J::u(p.telemetry_mismatch)));
+    cov.put("events", J::obj().set("deliveries", J::u(p.deliveries)).set("polls", J::u(p.polls)).set("resets", J::u(p.resets)).set("clock_advances", J::u(p.advances)).set("forks", J::u(p.forks)).set("snapshots", J::u(p.snapshots)).set("restores", J::u(p.restores)).set("bare_resets_inside_reset_storms", J::u(p.reset_storm_resets)).set("soak_loops", J::u(p.soak_loops)).set("steps_inside_soak_loops", J::u(p.soak_steps)).set("enc_cc14", J::u(p.enc_cc14)).set("enc_pn", J::u(p.enc_pn)).set("ingest_rejected", J::u(p.ingest_rejected)).set("ingest_mismatch", J::u(p.ingest_mismatch)).set("factory_rebuild_mismatch", J::u(p.factory_rebuild_mismatch)).set("accessor_mismatch", J::u(p.accessor_mismatch)).set("telemetry_mismatch", J::u(p.telemetry_mismatch)).set("garbled_text_parses_ok_plus_calls", J::u(p.garbled_parses)));
     cov.put("reports", J::obj().set("cc14", J::u(p.reports_cc14)).set("pn", J::u(p.reports_pn)).set("polling_feed", J::u(p.reports_polling_feed)).set("polling_poll", J::u(p.reports_polling_poll)));
     let mut ff = J::obj();
     let mut fl = J::obj();
